@@ -4,7 +4,6 @@
 package faketty
 
 import (
-	"errors"
 	"sync"
 
 	"github.com/gdamore/tcell/v2"
@@ -110,31 +109,26 @@ func (t *Tty) Read(b []byte) (int, error) {
 	if h := t.ReadHook; h != nil {
 		h()
 	}
-	t.mu.Lock()
-	t.rec("Read", nil)
-	if e := t.readErr; e != nil {
-		t.readErr = nil
-		t.mu.Unlock()
-		return 0, e
-	}
-	drain := t.drain
-	t.mu.Unlock()
-	select {
-	case chunk := <-t.in:
-		if chunk == nil {
-			t.mu.Lock()
-			e := t.readErr
+	for {
+		t.mu.Lock()
+		t.rec("Read", nil)
+		if e := t.readErr; e != nil {
 			t.readErr = nil
 			t.mu.Unlock()
-			if e == nil {
-				e = errors.New("fake read error")
-			}
 			return 0, e
 		}
-		n := copy(b, chunk)
-		return n, nil
-	case <-drain:
-		return 0, nil
+		drain := t.drain
+		t.mu.Unlock()
+		select {
+		case chunk := <-t.in:
+			if chunk == nil {
+				continue // wake-up for a read error (delivered once, above)
+			}
+			n := copy(b, chunk)
+			return n, nil
+		case <-drain:
+			return 0, nil
+		}
 	}
 }
 
